@@ -17,6 +17,7 @@ package main
 // Built without -race (.bin/corr) the engine still runs everything except the detector and says so.
 
 import (
+	"context"
 	"encoding/json"
 	"fmt"
 	"os"
@@ -77,6 +78,7 @@ func raceGroups(c *Ctx) []raceGroup {
 		{"cache-pairs:bycmd,renew;lookupne,renew", p()}, {"cache-pairs:store,lookup;invalidate,bycmd;mapcmd,dump;clear,size", p()},
 		{"cache-pairs:peerversion,peerversion;inherited,inherited;snapshot,renew", p()},
 		{"cache-invalidate-wins", p()},
+		{"cache-dump-writers", 4}, {"cache-dump-writers", 1},
 		{"hs-shared", 4}, {"hs-shared", p()},
 		{"hs-det", 2},
 		{"stream-dir", 4}, {"stream-dir", p()},
@@ -167,7 +169,7 @@ func top(st []string, n int) string {
 }
 
 func raceDriver(c *Ctx) error {
-	c.Res.Rule = "workload groups in child processes of the -race harness (GOMAXPROCS 1/2/4/8 by seed): (cache-lin) 2-4 goroutines x 3-6 random SessionCache operations (Store, Lookup, LookupNonExpired, LookupByCommand, MapCommand, Invalidate, InvalidateExpired, Clear, Size, Snapshot, DebugDump) on 3 overlapping session ids with 6 shared entry objects (never / past / future expiry) while other goroutines RenewLease/IsExpired/Expiration the same entries, injected Gosched; each concurrent history must have a linearization (found by exhaustive search respecting real-time order) which the Lean cache object replays with identical results, final Size/Snapshot/DebugDump/Lookups included; (cache-atomic) the same check on small targeted histories: Invalidate / InvalidateExpired / LookupNonExpired / Clear against a concurrent Store+MapCommand of the same id with an observer; dumped expirations must parse and lie within the run's window (torn reads); (cache-pairs) targeted method pairs hammered from 4 goroutines; (cache-invalidate-wins) lookups that start after Invalidate returned must miss; (hs-shared) many simultaneous client.ConnectAndAuthenticateWithConfig calls sharing ONE *SecurityConfig and ONE SessionCache against one server.Server over loopback TCP, fresh, resuming one shared session, and mixed, with maintenance sweeps/dumps of both caches running, every connection must authenticate, be encrypted and echo a message; (hs-det) the configuration-cell schedules and the resume-vs-Invalidate schedule replayed deterministically on real Authenticators; (stream-dir / stream-secret) one goroutine sends (SendMessage, SendPartialMessage, WriteMessage/EndMessage/StartMessage, PutSecret) while another receives (ReceiveFrameWithEnd, ReceiveFrame, ReceiveCompleteMessage, StartMessageRead/ReadMessageBytes/EndMessageRead, GetSecret) on one established stream (keyed or plaintext, sizes around the 4 KiB flush threshold, misuse errors), per-direction results compared with the model under a seed-chosen merge order and end-to-end with the peer; every data-race report of the detector whose stack enters the library is a violation; distinct by op sequence; non-trivial = at least 2 goroutines touch one session id / one stream"
+	c.Res.Rule = "workload groups in child processes of the -race harness (GOMAXPROCS 1/2/4/8 by seed): (cache-lin) 2-4 goroutines x 3-6 random SessionCache operations (Store, Lookup, LookupNonExpired, LookupByCommand, MapCommand, Invalidate, InvalidateExpired, Clear, Size, Snapshot, DebugDump) on 3 overlapping session ids with 6 shared entry objects (never / past / future expiry) while other goroutines RenewLease/IsExpired/Expiration the same entries, injected Gosched; each concurrent history must have a linearization (found by exhaustive search respecting real-time order) which the Lean cache object replays with identical results, final Size/Snapshot/DebugDump/Lookups included; (cache-atomic) the same check on small targeted histories: Invalidate / InvalidateExpired / LookupNonExpired / Clear against a concurrent Store+MapCommand of the same id with an observer; dumped expirations must parse and lie within the run's window (torn reads); (cache-pairs) targeted method pairs hammered from 4 goroutines; (cache-invalidate-wins) lookups that start after Invalidate returned must miss; (cache-dump-writers) thousands of DebugDump calls against concurrent Store/MapCommand/Invalidate/LookupNonExpired/InvalidateExpired with a progress watchdog (a dump that takes the cache lock twice wedges the cache as soon as a writer arrives in between); (hs-shared) many simultaneous client.ConnectAndAuthenticateWithConfig calls sharing ONE *SecurityConfig and ONE SessionCache against one server.Server over loopback TCP, fresh, resuming one shared session, and mixed, with maintenance sweeps/dumps of both caches running, every connection must authenticate, be encrypted and echo a message; (hs-det) the configuration-cell schedules and the resume-vs-Invalidate schedule replayed deterministically on real Authenticators; (stream-dir / stream-secret) one goroutine sends (SendMessage, SendPartialMessage, WriteMessage/EndMessage/StartMessage, PutSecret) while another receives (ReceiveFrameWithEnd, ReceiveFrame, ReceiveCompleteMessage, StartMessageRead/ReadMessageBytes/EndMessageRead, GetSecret) on one established stream (keyed or plaintext, sizes around the 4 KiB flush threshold, misuse errors), per-direction results compared with the model under a seed-chosen merge order and end-to-end with the peer; every data-race report of the detector whose stack enters the library is a violation; distinct by op sequence; non-trivial = at least 2 goroutines touch one session id / one stream"
 	exe, err := os.Executable()
 	if err != nil {
 		return err
@@ -183,14 +185,24 @@ func raceDriver(c *Ctx) error {
 	c.Count(fmt.Sprintf("race-detector:%v", raceEnabled))
 	var cases []Case
 	seenRace := map[string]bool{}
+	wedged := 0
 	for gi, g := range raceGroups(c) {
+		if wedged >= 2 {
+			c.Res.Notes = append(c.Res.Notes, "two workload groups wedged: the remaining groups were not run")
+			break
+		}
 		outp := filepath.Join(work, fmt.Sprintf("w%d.json", gi))
 		logp := filepath.Join(work, fmt.Sprintf("race%d", gi))
-		cmd := exec.Command(exe, "race", "-tier", c.Tier, "-seed", fmt.Sprint(c.Seed+int64(gi)*1000003), "-oracle", c.Oracle, "-out", filepath.Join(work, "ignored.json"))
+		// a workload that wedges (deadlock inside the library) must not hang the check
+		limit := time.Duration(c.Pick(75, 900)) * time.Second
+		wctx, wcancel := context.WithTimeout(context.Background(), limit)
+		cmd := exec.CommandContext(wctx, exe, "race", "-tier", c.Tier, "-seed", fmt.Sprint(c.Seed+int64(gi)*1000003), "-oracle", c.Oracle, "-out", filepath.Join(work, "ignored.json"))
 		cmd.Env = append(os.Environ(), "VERIF_RACE_WORKER="+g.name, "VERIF_RACE_OUT="+outp,
 			"GORACE=log_path="+logp+" halt_on_error=0 exitcode=0 history_size=3", fmt.Sprintf("GOMAXPROCS=%d", g.procs))
 		t0 := time.Now()
 		stderr, runErr := cmd.CombinedOutput()
+		timedOut := wctx.Err() != nil
+		wcancel()
 		c.Count("group:" + strings.SplitN(g.name, ":", 2)[0])
 		c.Count(fmt.Sprintf("gomaxprocs:%d", g.procs))
 		label := fmt.Sprintf("%s procs=%d seed=%d", g.name, g.procs, c.Seed+int64(gi)*1000003)
@@ -207,6 +219,11 @@ func raceDriver(c *Ctx) error {
 			key := "C17:worker-crashed:" + strings.SplitN(g.name, ":", 2)[0]
 			if strings.Contains(tail, "concurrent map") {
 				key = "C17:concurrent-map-access"
+			}
+			if timedOut {
+				wedged++
+				key = "C17:workload-wedged:" + strings.SplitN(g.name, ":", 2)[0]
+				tail = fmt.Sprintf("no result after %v (deadlock or livelock under concurrent use); ", limit) + tail
 			}
 			c.Violate(Violation{Property: "C17", Key: key, What: "the workload process died (fatal runtime error or panic while the library ran under concurrent use)",
 				Ops: replay, Expected: "workload completes", Observed: fmt.Sprintf("%v: %s", runErr, tail)})
@@ -302,6 +319,8 @@ func raceWorker(c *Ctx, group string) error {
 			wlCachePairs(c, out, arg)
 		case "cache-invalidate-wins":
 			wlInvalidateWins(c, out)
+		case "cache-dump-writers":
+			wlDumpWriters(c, out)
 		case "hs-shared":
 			wlHsShared(c, out)
 		case "hs-det":
